@@ -6,6 +6,7 @@ CONSTANTS
   MaxCalls = 3
   MaxExpire = 1
   Kinds = {"dial"}
+  ZeroDuration = FALSE
   Faults = TRUE
 VIEW View
 INVARIANTS TypeOK SizeBound ServedFreshAndSequential NoCrossHost RefinesSequential MissReturnsOwnAnswer MutexDiscipline
